@@ -5,7 +5,7 @@
 use swc_ecma_ast::*;
 
 use crate::{
-    transform::operand_handler::{DefaultOperandHandler, OperandHandler},
+    transform::operand_handler::{is_literal_only_sum, DefaultOperandHandler, OperandHandler},
     visitor::{
         csi_methods::CsiMethods,
         ident_provider::{IdentKind, IdentProvider},
@@ -97,5 +97,7 @@ fn prepare_replace_expressions_in_binary(
 }
 
 fn must_replace_binary_expression(arguments: &[ExprOrSpread]) -> bool {
-    arguments.iter().any(|arg| !arg.expr.is_lit())
+    arguments
+        .iter()
+        .any(|arg| !is_literal_only_sum(&arg.expr))
 }
